@@ -8,7 +8,10 @@ use std::time::Instant;
 
 use crate::explore::fnv;
 
-pub const VERIF_ROOT: &str = "/verif";
+/// root of the verification tree: the directory of the `check` driver that started us
+pub fn verif_root() -> String {
+    std::env::var("NQV_ROOT").unwrap_or_else(|_| "/verif".to_string())
+}
 
 #[derive(Clone, Debug)]
 pub struct Violation {
@@ -50,7 +53,7 @@ impl Reporter {
             .and_then(|s| s.parse::<i64>().ok())
             .unwrap_or(0);
         let mut known = vec![];
-        let path = format!("{VERIF_ROOT}/known_findings.jsonl");
+        let path = format!("{}/known_findings.jsonl", verif_root());
         if let Ok(text) = std::fs::read_to_string(&path) {
             for line in text.lines() {
                 let line = line.trim();
@@ -73,7 +76,7 @@ impl Reporter {
                 }
             }
         }
-        let _ = std::fs::remove_dir_all(format!("{VERIF_ROOT}/replays/{property}"));
+        let _ = std::fs::remove_dir_all(format!("{}/replays/{property}", verif_root()));
         Reporter {
             property: property.to_string(),
             tier: tier.to_string(),
@@ -119,7 +122,7 @@ impl Reporter {
         let mut machinery_errors = 0u64;
         let mut known_hits = vec![];
         let mut viol_list = vec![];
-        let replay_dir = PathBuf::from(format!("{VERIF_ROOT}/replays/{}", self.property));
+        let replay_dir = PathBuf::from(format!("{}/replays/{}", verif_root(), self.property));
         for (key, (count, v)) in g.by_key.iter() {
             let k = self
                 .known
@@ -192,7 +195,7 @@ impl Reporter {
             "wall_s": self.elapsed(),
             "violations": new_violations,
         });
-        let evdir = format!("{VERIF_ROOT}/evidence");
+        let evdir = format!("{}/evidence", verif_root());
         let _ = std::fs::create_dir_all(&evdir);
         let evpath = format!("{evdir}/{}.json", self.property);
         if let Err(e) = std::fs::write(&evpath, serde_json::to_string_pretty(&ev).unwrap()) {
